@@ -326,6 +326,58 @@ impl SubCheck for LeapNoPanic {
     }
 }
 
+pub struct VarZoneRound;
+impl SubCheck for VarZoneRound {
+    type Case = (i64, i32, i32, i64, u32, u16, D);
+    fn name(&self) -> &'static str {
+        "rounding_in_variable_zone"
+    }
+    fn rule(&self) -> &'static str {
+        "case = (zone with one offset change, instant near the change - inside the repeated or next to the skipped wall-clock interval - or far away, nanoseconds, digits, span): sub-second rounding / truncation of a DateTime in that zone changes the nanoseconds (and, when rounding up carries, the second) of the same occurrence - the instant never jumps to the other occurrence of the wall clock; duration_trunc / round / round_up give the NaiveDateTime route's answer for the wall clock, as an instant of the zone; non-trivial = the wall clock of the value occurs twice"
+    }
+    fn strategy(&self) -> Option<BoxedStrategy<Self::Case>> {
+        Some(
+            (-2_000_000_000i64..4_000_000_000, (-40i32..=40, -6i32..=6).prop_filter_map("no change", |(q, d)| if d != 0 { Some((q * 900, q * 900 + d * 900)) } else { None }), prop_oneof![4 => -8_000i64..8_000, 1 => -40_000_000i64..40_000_000], 0u32..1_000_000_000, 0u16..12, span_strategy(1_000_000_007))
+                .prop_map(|(t, (a, b), d, ns, dg, span)| (t, a, b, t + d, ns, dg, span))
+                .boxed(),
+        )
+    }
+    fn check(&self, &(t, a, b, u, ns, digits, span): &Self::Case, obs: &mut Obs) -> Result<(), String> {
+        use crate::props::c14::OneStep;
+        let tz = OneStep { t, a, b };
+        let utc = DateTime::from_timestamp(u, ns).ok_or("harness: instant")?.naive_utc();
+        let dt = tz.from_utc_datetime(&utc);
+        let off = dt.offset().local_minus_utc();
+        let wall = u + off as i64;
+        obs.nt_if(tz.preimage(wall).len() == 2, "repeated_wall_clock");
+        obs.label_if(tz.preimage(wall).len() == 1, "wall_clock_once");
+        let unit: u32 = 10u32.pow(9 - (digits as u32).min(9));
+        let down = ns - ns % unit;
+        let tr = call("trunc_subsecs", || dt.trunc_subsecs(digits))?;
+        ensure_eq!((tr.timestamp(), tr.timestamp_subsec_nanos(), tr.offset().local_minus_utc()), (u, down, off), "trunc_subsecs({digits}) of instant {u}.{ns:09} in zone {t}|{a}->{b}");
+        let up = ns % unit != 0 && unit - ns % unit <= ns % unit;
+        let (es, en) = if up { if down + unit == 1_000_000_000 { (u + 1, 0) } else { (u, down + unit) } } else { (u, down) };
+        let rd = call("round_subsecs", || dt.round_subsecs(digits))?;
+        ensure_eq!((rd.timestamp(), rd.timestamp_subsec_nanos()), (es, en), "round_subsecs({digits}) of instant {u}.{ns:09} in zone {t}|{a}->{b}");
+        ensure_eq!(rd.offset().local_minus_utc(), if es >= t { b } else { a }, "offset after round_subsecs");
+        // span rounding: same answer as the NaiveDateTime route on the wall clock, realised as the instant
+        // that lies the same distance from the original
+        let td = span.td()?;
+        let nl = dt.naive_local();
+        for op in 0..3 {
+            let name = ["duration_trunc", "duration_round", "duration_round_up"][op];
+            let x = call("NaiveDateTime route", || match op { 0 => nl.duration_trunc(td), 1 => nl.duration_round(td), _ => nl.duration_round_up(td) })?;
+            let y = call("DateTime route", || match op { 0 => dt.duration_trunc(td), 1 => dt.duration_round(td), _ => dt.duration_round_up(td) })?;
+            match (x, y) {
+                (Ok(x), Ok(y)) => ensure_eq!(y.naive_utc() - utc, x - nl, "{name}({td:?}) in zone {t}|{a}->{b}: distance moved by the DateTime route vs the NaiveDateTime route on the wall clock {nl:?}"),
+                (Err(x), Err(y)) => ensure_eq!(x, y, "{name}: error classes"),
+                (x, y) => return Err(format!("{name}({td:?}) on wall clock {nl:?}: NaiveDateTime route {x:?}, DateTime route {:?}", y.map(|v| v.naive_utc()))),
+            }
+        }
+        Ok(())
+    }
+}
+
 pub struct ErrorClasses;
 impl SubCheck for ErrorClasses {
     type Case = u8;
@@ -348,7 +400,7 @@ impl SubCheck for ErrorClasses {
 }
 
 pub fn subs() -> Vec<Box<dyn DynSub>> {
-    vec![Box::new(Round), Box::new(Subsec), Box::new(LeapNoPanic), Box::new(ErrorClasses)]
+    vec![Box::new(Round), Box::new(Subsec), Box::new(LeapNoPanic), Box::new(ErrorClasses), Box::new(VarZoneRound)]
 }
 
 pub fn run(ctx: &Ctx) {
@@ -357,4 +409,5 @@ pub fn run(ctx: &Ctx) {
     ctx.run_prop(&Round, n);
     ctx.run_prop(&Subsec, n / 2);
     ctx.run_prop(&LeapNoPanic, n / 6);
+    ctx.run_prop(&VarZoneRound, n / 6);
 }
